@@ -22,14 +22,32 @@ CONC_UNITS = ['M', 'mM', 'm', 'mol/L', 'mmol/mL', 'g/L', 'g/mL', 'g/g', 'g/kg', 
               'mg/10 mL']
 RATIOS = [F(1, 10), F(1, 2), F(1), F(2)]
 Q_UNITS = ['L', 'mL', 'uL', 'g', 'mg', 'mol', 'mmol']
-SIZES = {'small': F(1, 10), 'all': F(1), 'more': F(3, 2)}       # fraction of the source the request needs
+SIZES = {'small': F(1, 10), 'all': F(1), 'more': F(3, 2),       # fraction of the source the request needs
+         'minute': F(1, 100000)}                                  # sub-microlitre preparations
+
+
+THOROUGH = {'on': False}
+STOCKS_THOROUGH = {
+    'na2so4-water': (('water', '20 mL'), ('na2so4', '5 mmol')),
+    'dmso-tea': (('tea', '15 mL'), ('dmso', '4 mL')),
+    'quaternary': (('water', '12 mL'), ('dmso', '6 mL'), ('nacl', '9 mmol'), ('na2so4', '2 mmol')),
+    'dilute-stock': (('water', '40 mL'), ('nacl', '0.3 mmol')),
+}
+SOLUTE.update({'na2so4-water': 'na2so4', 'dmso-tea': 'dmso', 'quaternary': 'nacl', 'dilute-stock': 'nacl'})
+OWN_SOLVENT.update({'na2so4-water': 'water', 'dmso-tea': 'tea', 'quaternary': 'water', 'dilute-stock': 'water'})
+Q_UNITS_THOROUGH = ['L', 'mL', 'uL', 'dL', 'g', 'mg', 'kg', 'mol', 'mmol', 'umol']
+RATIOS_THOROUGH = [F(1, 100), F(1, 10), F(1, 3), F(1, 2), F(9, 10), F(1), F(11, 10), F(2)]
 
 
 def specs():
+    th = THOROUGH['on']
+    if th:
+        STOCKS.update(STOCKS_THOROUGH)
     for stock in STOCKS:
         for solvent in ('own', 'other', 'VP', 'VS'):
-            for cu, ratio, qu, size in itertools.product(CONC_UNITS, RATIOS, Q_UNITS, SIZES):
-                if qu not in ('mL', 'g', 'mmol') and (cu not in ('M', 'g/g') or size != 'small'):
+            for cu, ratio, qu, size in itertools.product(CONC_UNITS, RATIOS_THOROUGH if th else RATIOS,
+                                                         Q_UNITS_THOROUGH if th else Q_UNITS, SIZES):
+                if qu not in ('mL', 'g', 'mmol') and (cu not in ('M', 'g/g', 'mol/mol', '%w/v') or size != 'small'):
                     continue
                 yield {'stock': stock, 'solvent': solvent, 'cu': cu, 'ratio': [ratio.numerator, ratio.denominator], 'qu': qu,
                        'size': size}
@@ -45,7 +63,7 @@ def run_spec(sp):
     source = C('stock', initial_contents=[(subs[n], q) for n, q in STOCKS[sp['stock']]])
     solute = subs[SOLUTE[sp['stock']]]
     own = OWN_SOLVENT[sp['stock']]
-    other = 'dmso' if own == 'water' else 'water'
+    other = 'dmso' if own == 'water' else 'water' if own != 'tea' else 'water'
     if sp['solvent'] in SOLVENT_CONTAINERS:
         cont = []
         for n, q in SOLVENT_CONTAINERS[sp['solvent']]:
@@ -184,6 +202,7 @@ def run(col):
                 "aliquots, conservation). Non-trivial = distinct (stock, solvent form, units, size, ratio, expectation, outcome)")
     col.assumptions += ["ratio 1 and requests that need exactly the whole stock are don't-care (boundary)"]
     vals = [col.seed % 3] if col.tier == 'quick' else [0, 1, 2]
+    THOROUGH['on'] = col.tier == 'thorough'
     for v in vals:
         _G.update(pp=pp, vidx=v)
         sps = list(specs())
@@ -208,5 +227,6 @@ def run(col):
 
 def replay(case):
     pp = env.load()
+    STOCKS.update(STOCKS_THOROUGH)
     _G.update(pp=pp, vidx=case['vidx'])
     return run_spec(case['spec'])[0]
